@@ -714,10 +714,23 @@ def gen_fault(tp, m: Model, ids):
     if kind == "change-two-centres":
         if len(bonds) >= 2 and tp.chance(128):
             b1, b2 = tp.shuffle(bonds)[:2]
+            if tp.chance(128):
+                odd = tp.pick(ROLES)
+                return ["set_bond_change",
+                        {r: _fault_desc_bond(
+                            tp, m, *sorted(b2 if r == odd else b1))
+                         for r in ROLES}, tag]
+            r1, r2 = tp.shuffle(list(ROLES))[:2]
             return ["set_bond_change",
-                    {"broken": _fault_desc_bond(tp, m, *sorted(b1)),
-                     "formed": _fault_desc_bond(tp, m, *sorted(b2))}, tag]
+                    {r1: _fault_desc_bond(tp, m, *sorted(b1)),
+                     r2: _fault_desc_bond(tp, m, *sorted(b2))}, tag]
         x, y = tp.shuffle(atoms)[:2]
+        if tp.chance(128):
+            # all three roles, one of them on the other centre
+            odd = tp.pick(ROLES)
+            return ["set_atom_change",
+                    {r: _fault_desc_atom(tp, m, y if r == odd else x)
+                     for r in ROLES}, tag]
         r1, r2 = tp.shuffle(list(ROLES))[:2]
         return ["set_atom_change", {r1: _fault_desc_atom(tp, m, x),
                                     r2: _fault_desc_atom(tp, m, y)}, tag]
@@ -801,6 +814,12 @@ def enumerate_faults(m: Model):
                     "broken": ["Tetrahedral", [x, y, None, None, None], 1],
                     "formed": ["Tetrahedral", [y, x, None, None, None], 1]},
                     "#change-two-centres"])
+                for odd in ROLES:
+                    out.append(["set_atom_change", {
+                        r: ["Tetrahedral", [y if r == odd else x,
+                                            x if r == odd else y,
+                                            None, None, None], 1]
+                        for r in ROLES}, "#change-two-centres"])
     if m.cls == "SCRG":
         out.append(["set_atom_change", {}, "#change-empty"])
         out.append(["set_bond_change", {"formed": None}, "#change-empty"])
@@ -812,4 +831,9 @@ def enumerate_faults(m: Model):
                 "fleeting": ["PlanarBond", [None, None, *sorted(bl[1]), None,
                                             None], 0]},
                 "#change-two-centres"])
+            for odd in ROLES:
+                out.append(["set_bond_change", {
+                    r: ["PlanarBond", [None, None, *sorted(
+                        bl[1] if r == odd else bl[0]), None, None], 0]
+                    for r in ROLES}, "#change-two-centres"])
     return out
